@@ -1456,7 +1456,7 @@ func c15Windows(t *testing.T, unit string, configs []RCase) {
 				break
 			}
 		}
-		rec.Class(fmt.Sprintf("config-%02d-schedules", ci), int64(runs))
+		rec.Class(fmt.Sprintf("%s-config-%02d-schedules", unit, ci), int64(runs))
 	}
 	rec.Exhaustive(exhaustive)
 }
